@@ -478,6 +478,9 @@ class _FuncState:
                         amap[a_.kwarg.arg] = amap.get(a_.kwarg.arg, EMPTY) | cont(v)
                 if g.name in ("__init__", "__post_init__"):
                     out |= cont(allargs)  # a constructed object holds its arguments
+                if g.name == "__post_init__" and pnames and allargs:
+                    # dataclass: the synthesised __init__ stored the arguments in the fields before __post_init__ runs
+                    amap[pnames[0]] = cont(allargs)
                 if not any(amap.values()):
                     continue
                 summ = self.A.analyse(g, amap, self.chain + (g.qualname,))
